@@ -42,20 +42,22 @@ fn check_if_inputs_are_power_of_two(
     let mut is_even: bool = false;
 
     //if the first expression is a number literal that is a power of 2
-    if let Expression::NumberLiteral(_, val_string, _) = *box_expression {
+    if let Expression::NumberLiteral(_, val_string, exponent) = *box_expression {
         //a literal that does not fit into 128 bits is not considered
         if let Ok(value) = val_string.parse::<u128>() {
-            if (value != 0) && ((value & (value - 1)) == 0) {
+            //a literal with an exponent (1e18) is a multiple of ten, not a power of two
+            if exponent.is_empty() && (value != 0) && ((value & (value - 1)) == 0) {
                 is_even = true;
             }
         }
     }
 
     //if the first expression is a number literal that is a power of 2
-    if let Expression::NumberLiteral(_, val_string, _) = *box_expression_1 {
+    if let Expression::NumberLiteral(_, val_string, exponent) = *box_expression_1 {
         //a literal that does not fit into 128 bits is not considered
         if let Ok(value) = val_string.parse::<u128>() {
-            if (value != 0) && ((value & (value - 1)) == 0) {
+            //a literal with an exponent (1e18) is a multiple of ten, not a power of two
+            if exponent.is_empty() && (value != 0) && ((value & (value - 1)) == 0) {
                 is_even = true;
             }
         }
